@@ -295,6 +295,7 @@ namespace
   {
     if(cfg.mesh.kind == 0) { auto m = make_chain(cfg.mesh.a); explore_cfg(c, *m, cfg); }
     else if(cfg.mesh.kind == 1) { auto m = make_quads(cfg.mesh.a, cfg.mesh.b); explore_cfg(c, *m, cfg); }
+    else if(cfg.mesh.kind == 3) { auto m = make_quads_scrambled(cfg.mesh.a, cfg.mesh.b); explore_cfg(c, *m, cfg); }
     else { auto m = make_fan(cfg.mesh.a); explore_cfg(c, *m, cfg); }
   }
 }
@@ -305,7 +306,7 @@ int main(int argc, char** argv)
   verif::Spec spec;
   spec.property = "C17";
   spec.harness = "c17_sched";
-  spec.rule = "case = configuration (mesh: chains 1..16 cells, quad grids up to 4x4, triangle fans, all cell subsets of 2x2 and 3x2 quads and of chain(5); "
+  spec.rule = "case = configuration (mesh: chains 1..16 cells, quad grids up to 4x4 also with scrambled cell numbering, triangle fans, all cell subsets of 2x2 and 3x2 quads and of chain(5); "
     "strategy in {automatic,single,layered,layered_sorted,colored}; requested workers 0..cells+1 (capped); need_scatter x need_combine; 1 or 2 assemble() calls). "
     "Per case all schedules of the real worker threads with at most PB preemptions (iterated 0..PB) are executed (stateless DFS, visited-state pruning). "
     "Non-trivial = configuration resolving to >= 2 worker threads, hashed by its description.";
@@ -359,6 +360,8 @@ int main(int argc, char** argv)
     add(MeshCfg{1, 2, 2, 0, true}, ps, pl); add(MeshCfg{1, 3, 2, 0, true}, ps, pl); add(MeshCfg{1, 3, 3, 0, true}, ps, pl);
     add(MeshCfg{1, 4, 2, 0, true}, ps, pl); add(MeshCfg{1, 4, 4, 0, true}, 1, 1);
     if(T) { add(MeshCfg{1, 6, 2, 0, true}, 2, 2); add(MeshCfg{1, 8, 2, 0, true}, 2, 1); }
+    // quad grids with a scrambled cell numbering (layer / colour construction must not depend on the numbering)
+    add(MeshCfg{3, 3, 2, 0, true}, ps, pl); add(MeshCfg{3, 3, 3, 0, true}, ps, pl); add(MeshCfg{3, 4, 4, 0, true}, 1, 1); add(MeshCfg{3, 5, 2, 0, true}, ps, pl);
     // triangle fans (every pair of cells is vertex-adjacent)
     for(Index n = 2; n <= 5; ++n) add(MeshCfg{2, n, 0, 0, true}, ps, pl);
     // all proper non-empty cell subsets (disconnected selections) of chain(6), quads 2x2, quads 3x2
